@@ -302,6 +302,131 @@ def gen_macro_case(rng, idx):
     return text, sorted(g.feats)
 
 
+# ------------------------------------------------------------------ pp-number lexing (round 3, wave 6)
+# C11 6.4.8: pp-number = digit | . digit | pp-number digit | pp-number identifier-nondigit | pp-number e/E/p/P sign | pp-number .
+# -- one rule for every base: `0xe+X` is ONE pp-number (X is not a macro use), `0xf+X` is three tokens.  A case puts random
+# pp-numbers of every shape of the grammar directly next to macro names / parameter names / calls (with and without white
+# space at every boundary) and shows where the lexer ended the number through plain expansion, # (spelling, also of the
+# pre-expanded argument), ## (pieces pasted into a pp-number and a pp-number pasted with what follows), arguments,
+# object-like and function-like replacement lists (a parameter name swallowed by a pp-number is not a parameter).
+_PPN_START = ['0x', '0X', '0x', '0', '1', '9', '12', '.5', '.0', '0x1', '0X.8', '1.', '0x1.', '00', '0b1', '7']
+_PPN_MID = list('0123456789') + list('abcdefABCDEF') + list('eEpP') * 3 + list('xXuUlLfF_gzGZ') + ['.', '.', '..'] + \
+    ['e+', 'e-', 'E+', 'E-', 'p+', 'p-', 'P+', 'P-'] * 2
+_PPN_LAST = list('eEpP') * 4 + list('eEpP') * 4 + list('fFdDaA19') + ['_', '.', 'u', 'x', 'X', 'e+', 'P-', 'e1', 'p2', 'ee', 'pE', 'Ep']
+
+
+def gen_ppnumber(rng):
+    s = rng.choice(_PPN_START)
+    for _ in range(rng.choice([0, 0, 0, 1, 1, 2, 3, 5])):
+        s += rng.choice(_PPN_MID)
+    if rng.random() < 0.75:
+        s += rng.choice(_PPN_LAST)
+    return s
+
+
+def gen_ppnum_case(rng, idx):
+    feats = set()
+    # macro names beginning with the letters the scanner looks at, so that a name directly after a number is tempting
+    X = ['%s%d%s' % (c, idx, rng.choice(['', '_', 'e', 'p'])) for c in rng.sample(['X', 'e', 'E', 'p', 'P', 'x', 'f', '_', 'n'], 4)]
+    F = 'F%d_' % idx
+    S, XS, C, XC, ID = ['%s%d_' % (n, idx) for n in ('S', 'XS', 'C', 'XC', 'ID')]
+    defs = ['#define %s %s' % (X[0], rng.choice(['1', '7', '3'])),
+            '#define %s %s' % (X[1], rng.choice(['2', '0x1e', '1e', '0xE', '4p', '(8)'])),
+            '#define %s %s' % (X[2], rng.choice(['+', '-', '+5', '- %s' % X[0], X[0]])),
+            '#define %s(x) [x]' % F,
+            '#define %s(x) #x' % S, '#define %s(x) %s(x)' % (XS, S),
+            '#define %s(a,b) a##b' % C, '#define %s(a,b) %s(a,b)' % (XC, C), '#define %s(x) x' % ID]
+    # (X[3] stays undefined: an ordinary identifier)
+
+    def ends_exp(n):
+        return n[-1] in 'eEpP'
+
+    def tail(n):
+        """what follows the number directly, and the name of the feature"""
+        w = rng.random()
+        nm = rng.choice(X)
+        sg = rng.choice('+-')
+        if w < 0.34:
+            t, f = sg + nm, 'sign-name'
+        elif w < 0.42:
+            t, f = nm, 'name-directly'
+        elif w < 0.48:
+            t, f = '.' + nm, 'dot-name'
+        elif w < 0.55:
+            t, f = sg + rng.choice('+-') + nm, 'sign-sign-name'
+        elif w < 0.62:
+            t, f = ' ' + sg + nm, 'space-sign-name'
+        elif w < 0.69:
+            t, f = sg + ' ' + nm, 'sign-space-name'
+        elif w < 0.77:
+            t, f = sg + '%s(%s)' % (F, rng.choice([nm, '2', gen_ppnumber(rng) + sg + nm])), 'sign-call'
+        elif w < 0.83:
+            t, f = sg + '(' + nm + ')', 'sign-paren-name'
+        elif w < 0.9:
+            t, f = sg + gen_ppnumber(rng) + rng.choice(['', sg]) + nm, 'sign-number-name'
+        elif w < 0.95:
+            t, f = sg + nm + sg + gen_ppnumber(rng) + sg + nm, 'sign-name-sign-number-sign-name'
+        else:
+            t, f = '', 'nothing'
+        return t, f
+
+    def unit():
+        n = gen_ppnumber(rng)
+        t, f = tail(n)
+        feats.add('ppnum-tail:' + f)
+        feats.add('ppnum:%s-%s' % ('hex' if n[:2] in ('0x', '0X') else 'dot' if n[0] == '.' else 'dec',
+                                   'ends-in-' + n[-1] if ends_exp(n) else 'exp-sign-inside' if re.search(r'[eEpP][+-]', n) else 'plain'))
+        if ends_exp(n) and t[:1] in ('+', '-') :
+            feats.add('ppnum-sign-continues-the-number:' + ('hex-' if n[:2] in ('0x', '0X') else 'dec-') + n[-1].lower())
+        return n, t
+
+    uses = []
+    for _ in range(rng.randint(3, 6)):
+        n, t = unit()
+        w = rng.random()
+        if w < 0.25:
+            uses.append('%s%s' % (n, t))
+            feats.add('ppnum-context:plain')
+        elif w < 0.37:
+            uses.append('%s(%s%s%s)' % (S, rng.choice(['', ' ']), n + t, rng.choice(['', ' '])))
+            feats.add('ppnum-context:stringify')
+        elif w < 0.55:
+            uses.append('%s(%s%s%s)' % (XS, rng.choice(['', ' ']), n + t, rng.choice(['', ' '])))
+            feats.add('ppnum-context:stringify-expanded')
+        elif w < 0.63:
+            uses.append('%s(%s%s)' % (rng.choice([F, ID]), n, t))
+            feats.add('ppnum-context:argument')
+        elif w < 0.75:
+            # number ## what follows (the right operand is a number / a name; the result is one pp-number again)
+            r = rng.choice([X[0], X[3], '0', gen_ppnumber(rng), rng.choice(X) + '9'])      # (expands to a number or not at all)
+            # (a tail is kept only where it is part of the number, so that every paste gives a valid pp-token)
+            absorbed = re.match(r'^\.?[A-Za-z_]\w*$', t) or (ends_exp(n) and re.match(r'^[+-][A-Za-z_]\w*$', t))
+            uses.append('%s(%s%s,%s)' % (rng.choice([C, XC]), n, t if absorbed else '', r))
+            feats.add('ppnum-context:paste-after')
+        elif w < 0.83:
+            # pieces pasted into a number: `0xe ## +` is the pp-number `0xe+`; then a name follows it directly
+            if ends_exp(n) or n[-1] == '.':
+                pc = rng.choice('+-') if ends_exp(n) else rng.choice(['5', '.', 'e'])
+            else:
+                pc = rng.choice(['e', 'E', 'p', 'P', '.', '1', '_'])
+            uses.append('%s(%s,%s)%s' % (rng.choice([C, XC]), n, pc, rng.choice([rng.choice(X), rng.choice('+-') + rng.choice(X), ' ' + rng.choice(X)])))
+            feats.add('ppnum-context:paste-pieces')
+        elif w < 0.92:
+            nm = 'R%d_%d' % (idx, len(defs))
+            defs.append('#define %s %s%s' % (nm, n, t))
+            uses.append(rng.choice([nm, '%s(%s)' % (XS, nm), '%s+%s' % (nm, rng.choice(X))]))
+            feats.add('ppnum-context:object-like-replacement-list')
+        else:
+            nm = 'G%d_%d' % (idx, len(defs))
+            par = rng.choice(['x', 'e', 'p', 'E1', 'P_'])
+            sg = rng.choice('+-')
+            defs.append('#define %s(%s) %s%s%s %s %s%s%s' % (nm, par, n, rng.choice([sg, sg, '', '.']), par, rng.choice(';,'), par, sg, n + t))
+            uses.append('%s(%s)' % (nm, rng.choice(['3', rng.choice(X), gen_ppnumber(rng)])))
+            feats.add('ppnum-context:function-like-replacement-list-next-to-parameter')
+    text = '\n'.join(defs) + '\n' + ''.join('%s %s\n' % (u, rng.choice([';', ';', ','])) for u in uses)
+    return text, sorted(feats)
+
+
 # ------------------------------------------------------------------ line structure (round 3, wave z)
 # Text lines and directives INTERLEAVED: what the preprocessor must remember across a new-line is only "this is the start of a
 # line" (C11 6.10p2: a directive begins with a # that is the first token of a line), whatever token sequence the previous line
